@@ -13,6 +13,7 @@ import (
 	"bufio"
 	"encoding/hex"
 	"fmt"
+	"io"
 	"math/big"
 	"math/bits"
 	"os"
@@ -45,6 +46,7 @@ type sigView struct {
 type filt struct{ sig, byteIdx, mask, length, off int }
 
 type obs struct {
+	roBroken        string
 	orderReattached bool
 	editPanic       string // "<op kind>[-shared-enum]" when an edit operation panicked
 	editPanicMsg    string
@@ -59,13 +61,16 @@ type obs struct {
 }
 
 type world struct {
-	msg2    *acmelib.Message // a second message, only for the re-attachment scenario (D20)
-	msg     *acmelib.Message
-	sigs    []acmelib.Signal // by harness number
-	ids     map[acmelib.EntityID]int
-	enums   []*acmelib.SignalEnum
-	enumVal [][]*acmelib.SignalEnumValue
-	nval    int
+	net      *acmelib.Network // the message is sent by an interface of a node on a bus of this network
+	bus      *acmelib.Bus     // (messages of at most 8 bytes), so that the exporters / saver reach it
+	roBroken string           // a read-only library call changed the layout / Filters() / Decode()
+	msg2     *acmelib.Message // a second message, only for the re-attachment scenario (D20)
+	msg      *acmelib.Message
+	sigs     []acmelib.Signal // by harness number
+	ids      map[acmelib.EntityID]int
+	enums    []*acmelib.SignalEnum
+	enumVal  [][]*acmelib.SignalEnumValue
+	nval     int
 	// first edit operation after which the view of the layout stopped being well-formed
 	// (sorted, pairwise disjoint, inside the payload), with "-shared-enum" appended when it is an
 	// enum edit and at least two placed signals refer to that enum
@@ -106,6 +111,7 @@ func observe(w *world, payloads [][]byte) (o obs) {
 	o.brokenBy = w.brokenBy
 	o.orderBrokenBy = w.orderBrokenBy
 	o.orderReattached = w.orderReattached
+	o.roBroken = w.roBroken
 	o.editPanic, o.editPanicMsg = w.editPanic, w.editPanicMsg
 	o.msgBE = w.msg.ByteOrder() == acmelib.MessageByteOrderBigEndian
 	for _, s := range w.msg.Signals() { // layout order
@@ -250,6 +256,9 @@ func checkProps(o obs, payloads [][]byte, nbits int) []failure {
 	}
 	// the byte order of the message is the byte order of every signal in its layout (the spec
 	// below reads the payload in the message's byte order)
+	if o.roBroken != "" {
+		return []failure{{"c02-read-only-call-changed-layout", o.roBroken}}
+	}
 	if o.orderBrokenBy != "" && o.orderReattached {
 		return []failure{{"c02-byte-order-flipped-by-reattachment", "a signal of the layout was accepted by a second message and took its byte order: " + o.orderBrokenBy}}
 	}
@@ -364,6 +373,83 @@ func checkProps(o obs, payloads [][]byte, nbits int) []failure {
 //	AP k           AppendSignal    IN k start  InsertSignal    RM k  RemoveSignal
 //	BO b           SetByteOrder    ST k size   SetType (new type)   SE k e  SetEnum
 //	SL k a / SR k a  shift         CP compact  SZ n  UpdateSizeByte
+//
+// snapshot of everything the property observes about the layout: the view, Filters(), one Decode
+func layoutSnapshot(w *world) string {
+	var sb strings.Builder
+	for _, v := range currentView(w) {
+		fmt.Fprintf(&sb, "%d:%d:%d:%v:%d ", v.id, v.start, v.size, v.be, v.kind)
+	}
+	sb.WriteString("| ")
+	for _, x := range w.msg.SignalLayout().Filters() {
+		fmt.Fprintf(&sb, "%d:%d:%d:%d:%d ", w.ids[x.Signal().EntityID()], x.ByteIndex(), int(x.Mask()), x.Length(), x.LeftOffset())
+	}
+	sb.WriteString("| ")
+	data := make([]byte, w.msg.SizeByte())
+	for i := range data {
+		data[i] = byte(0xA5 ^ (37 * i))
+	}
+	func() {
+		defer func() {
+			if r := recover(); r != nil {
+				fmt.Fprintf(&sb, "panic:%v", r)
+			}
+		}()
+		for _, d := range w.msg.SignalLayout().Decode(data) {
+			if d != nil {
+				fmt.Fprintf(&sb, "%d=%d ", w.ids[d.Signal.EntityID()], d.RawValue)
+			}
+		}
+	}()
+	return sb.String()
+}
+
+// readOnlyCalls: library calls that only read the model (printing, getters, DBC / Markdown export,
+// saving) must leave the layout, Filters() and Decode() exactly as they were
+func readOnlyCalls(w *world) {
+	if w.msg == nil || w.roBroken != "" {
+		return
+	}
+	before := layoutSnapshot(w)
+	calls := []struct {
+		name string
+		f    func()
+	}{
+		{"Message.String", func() { _ = w.msg.String() }},
+		{"SignalLayout.String", func() { _ = w.msg.SignalLayout().String() }},
+		{"Message.Signals+SignalNames", func() { _ = w.msg.Signals(); _ = w.msg.SignalNames() }},
+		{"SignalLayout.Filters", func() { _ = w.msg.SignalLayout().Filters() }},
+	}
+	if w.bus != nil {
+		calls = append(calls,
+			struct {
+				name string
+				f    func()
+			}{"ExportBus", func() { acmelib.ExportBus(io.Discard, w.bus) }},
+			struct {
+				name string
+				f    func()
+			}{"ExportToMarkdown", func() { _ = acmelib.ExportToMarkdown(w.net, io.Discard) }},
+			struct {
+				name string
+				f    func()
+			}{"SaveNetwork", func() {
+				_ = acmelib.SaveNetwork(w.net, acmelib.SaveEncodingWire|acmelib.SaveEncodingJSON|acmelib.SaveEncodingText, io.Discard, io.Discard, io.Discard)
+			}})
+	}
+	for _, c := range calls {
+		func() {
+			defer func() { _ = recover() }() // a panic of an exporter is C16/C15's business, the layout is ours
+			c.f()
+		}()
+		if after := layoutSnapshot(w); after != before {
+			w.roBroken = fmt.Sprintf("%s changed the layout: before [%s] after [%s]", c.name, before, after)
+			w.stopped = true
+			return
+		}
+	}
+}
+
 func newWorld() *world { return &world{ids: map[acmelib.EntityID]int{}, trace: traceOut} }
 
 func currentView(w *world) []sigView {
@@ -568,6 +654,18 @@ func doOp(w *world, f []string) {
 		switch f[0] {
 		case "M":
 			w.msg = acmelib.NewMessage("m", 1, at(f, 1))
+			if at(f, 1) <= 8 {
+				w.net = acmelib.NewNetwork("net")
+				w.bus = acmelib.NewBus("bus")
+				node := acmelib.NewNode("node", 1, 1)
+				if w.net.AddBus(w.bus) == nil && w.bus.AddNodeInterface(node.Interfaces()[0]) == nil &&
+					node.Interfaces()[0].AddSentMessage(w.msg) == nil {
+				} else {
+					w.net, w.bus = nil, nil
+				}
+			}
+		case "RO":
+			readOnlyCalls(w)
 		case "NS":
 			// signedness does not matter for the layout; RawValue must be the payload bits either way
 			t, err := acmelib.NewIntegerSignalType(fmt.Sprintf("t%d", at(f, 2)), at(f, 2), (at(f, 1)+at(f, 2))%2 == 1)
@@ -818,7 +916,7 @@ func (rc *recorder) record(cat string, o obs, payloads [][]byte, nbits int, ops 
 		sig := f.class
 		sops := ops
 		detail := f.detail
-		if strings.HasPrefix(f.class, "c02-edit-op-panic-") || f.class == "c02-harness-panic" || f.class == "c02-byte-order-flipped-by-reattachment" {
+		if strings.HasPrefix(f.class, "c02-edit-op-panic-") || f.class == "c02-harness-panic" || f.class == "c02-byte-order-flipped-by-reattachment" || f.class == "c02-read-only-call-changed-layout" {
 			sops = shrink(ops, f.class, payloadsFor)
 			so, sp, snb := safeRun(sops, payloadsFor)
 			for _, g := range checkProps(so, sp, snb) {
@@ -881,6 +979,7 @@ func genExhaustive(rc *recorder, r *rng, nrand int) {
 				} else {
 					ops = append(ops, fmt.Sprintf("IN 0 %d", start), fmt.Sprintf("BO %d", be))
 				}
+				ops = append(ops, "RO")
 				pf := func(n int) [][]byte {
 					ps := [][]byte{}
 					for b := 0; b < 8*n; b++ {
@@ -1013,8 +1112,12 @@ func genHistory(r *rng) (ops []string) {
 		return 0, 0, 0, false
 	}
 	pick := func(c []int) int { return c[r.below(len(c))] }
-	// post-placement edits
+	do("RO")
+	// post-placement edits, read-only calls interleaved
 	for j := r.below(9); j > 0; j-- {
+		if r.below(3) == 0 {
+			do("RO")
+		}
 		k := r.below(nsig)
 		switch r.below(18) {
 		case 0, 1, 2:
@@ -1076,6 +1179,9 @@ func genHistory(r *rng) (ops []string) {
 	}
 	if r.below(3) == 0 {
 		do(fmt.Sprintf("BO %d", r.below(2)))
+	}
+	if r.below(2) == 0 {
+		do("RO")
 	}
 	if r.below(25) == 0 && !dead {
 		// D20: a signal placed here is also appended to a second message of the other byte order
